@@ -72,8 +72,59 @@ def prop_names(s, acc=None):
     return acc
 
 
+def two_package_runs(ctx):
+    """one run that emits two Go packages, each declaring a type of the same name (`Limits`) with its own rules and defaults: in each package the YAML
+    method enforces what the JSON method of that package enforces"""
+    from vlib.progs import Batch
+    b = Batch(ctx, "c17pk")
+    meta = []
+
+    def sch(idv, mx, hi, dflt):
+        return {"$id": idv, "type": "object", "definitions": {"limits": {"type": "object", "properties": {"name": {"type": "string", "maxLength": mx}, "level": {"type": "integer", "minimum": 0, "maximum": hi, "default": dflt}},
+                                                                      "required": ["name"]}},
+                "properties": {"limits": {"$ref": "#/definitions/limits"}}}
+    v1, v2 = sch("http://x/v1", 5, 10, 1), sch("http://x/v2", 10, 100, 2)
+    docs = [{"limits": {"name": "abc"}}, {"limits": {"name": "abcdefgh"}}, {"limits": {"name": "abc", "level": 50}}, {"limits": {"name": "abc", "level": 7}}, {"limits": {"level": 3}},
+            {"limits": {"name": "abcdefghijkl"}}, {"limits": {"name": "abc", "level": 500}}, {}]
+    n = 0
+    for argv in (["v1.json", "v2.json"], ["v2.json", "v1.json"]):
+        cid = "c17pk%d" % n
+        n += 1
+        cfg = {"tags": ["json", "yaml", "mapstructure"], "extra_imports": True, "default_package": "prog/%s/p1" % cid, "default_output": cid + "/p1/gen.go",
+               "mappings": [{"id": "http://x/v1", "root": "", "package": "prog/%s/p1" % cid, "output": cid + "/p1/gen.go"},
+                            {"id": "http://x/v2", "root": "", "package": "prog/%s/p2" % cid, "output": cid + "/p2/gen.go"}]}
+        jobs = []
+        for pk, root in (("p1", "V1Json"), ("p2", "V2Json")):
+            for d in docs:
+                for wire in ("json", "yaml"):
+                    jobs.append({"t": "%s/%s.%s" % (cid, pk, root), "doc": json.dumps(d), "wire": wire, "prior": ""})
+        c = b.add({"id": cid, "cfg": cfg, "files": {"v1.json": json.dumps(v1), "v2.json": json.dumps(v2)}, "argv": argv, "jobs": jobs})
+        meta.append((c, argv))
+    b.run()
+    nv = 0
+    for c, argv in meta:
+        r = {"kind": "batch", "cfg": c["cfg"], "files": c["files"], "argv": c["argv"]}
+        if not c["gen"].get("ok") or not c["build_ok"]:
+            ctx.violation("oracle", dict(r, gen=c["gen"].get("err"), build_err=c["build_err"]), "two packages in one run: generation failed or the output does not build: %s" % (c["gen"].get("err") or c["build_err"] or "")[:300])
+            nv += 1
+            continue
+        ctx.cov["programs"] += 1
+        for jj, jy in zip(c["jobs"][0::2], c["jobs"][1::2]):
+            oj, oy = jj.get("obs") or {}, jy.get("obs") or {}
+            ctx.count({"argv": argv, "t": jj["t"].split("/", 1)[1], "d": jj["doc"]}, True, "json-vs-yaml/two-packages")
+            same = oj.get("v") == oy.get("v") and (oj.get("v") != "ACC" or json.dumps(canon(oj.get("dump")), sort_keys=True) == json.dumps(canon(oy.get("dump")), sort_keys=True))
+            if not same:
+                if nv < 3:
+                    ctx.violation("oracle", dict(r, type=jj["t"], doc=jj["doc"], json_path=oj, yaml_path=oy),
+                                  "two packages in one run (arguments %s), %s, document %s: UnmarshalJSON -> %s %s, UnmarshalYAML -> %s %s"
+                                  % (argv, jj["t"].split("/", 1)[1], jj["doc"], oj.get("v"), (oj.get("err") or json.dumps(oj.get("dump")))[:120], oy.get("v"), (oy.get("err") or json.dumps(oy.get("dump")))[:120]))
+                nv += 1
+    return nv
+
+
 def run(ctx):
     ctx.proof_step(PROPS_FILE)
+    two_package_runs(ctx)
     n = 40 if ctx.tier == "quick" else 500
     sysm = []
     sysm += c06.systematic()[::3] + [x for x in c06.systematic() if '%' in json.dumps(x)] + c04.systematic()[::9] + c05.e2e_systematic(ctx)[::7] + c05.e2e_fractional() + [r for r in c08.systematic()[::4]] + [x[0] for x in c09.systematic()[::5]]
